@@ -44,6 +44,12 @@ type Task struct {
 type Case struct {
 	Tasks []Task `json:"tasks"`
 	Procs int    `json:"procs"`
+	// NbMax lowers (through the verif hook, set once before any task starts and only read afterwards) the
+	// learned-clause limit of every solver: clause-database reductions then happen inside the concurrent runs.
+	NbMax int `json:"nbmax,omitempty"`
+	// ConcurrentFirst runs the tasks together before running them one after the other: state that the library
+	// initialises lazily and process-wide is then first touched concurrently.
+	ConcurrentFirst bool `json:"concurrent_first,omitempty"`
 }
 
 // run executes one task and returns a canonical description of its outcome
@@ -85,9 +91,11 @@ func (t Task) run() (string, int) {
 		n := s.Enumerate(ch, nil)
 		<-done
 		return fmt.Sprintf("enumerated=%d delivered=%d valid=%v", n, got, valid), s.Stats.NbConflicts
-	case "cp-solve":
+	case "cp-solve", "cp-solve-heavy":
 		pb := solver.ParseSliceNb(oracle.CloneCNF(t.Clauses), t.N)
-		pb.DetectAtMostOne()
+		if t.Kind == "cp-solve" {
+			pb.DetectAtMostOne()
+		}
 		s := solver.New(pb)
 		s.CuttingPlanes = true
 		st := s.Solve()
@@ -257,8 +265,11 @@ func raceReports() string {
 }
 
 func check(c Case, o *vf.Obs) error {
-	gs.Arm(0, 0)
+	gs.Arm(c.NbMax, 0)
+	defer gs.Arm(0, 0)
 	raceReports() // forget what an earlier case left behind
+	o.ClassIf(c.NbMax > 0, "nbmax-lowered")
+	o.ClassIf(c.ConcurrentFirst, "concurrent-first")
 	old := runtime.GOMAXPROCS(c.Procs)
 	defer runtime.GOMAXPROCS(old)
 	o.Class(fmt.Sprintf("procs-%d", c.Procs))
@@ -266,47 +277,62 @@ func check(c Case, o *vf.Obs) error {
 	for _, t := range c.Tasks {
 		o.Class("task-" + t.Kind)
 	}
-	// alone, one after the other
 	want := make([]string, len(c.Tasks))
-	withConflicts := 0
-	for i, t := range c.Tasks {
-		var nc int
-		want[i], nc = t.run()
-		if nc > 0 {
-			withConflicts++
-		}
-	}
-	if rep := raceReports(); rep != "" {
-		return raceError("while running the tasks one after the other", rep)
-	}
-	if withConflicts >= 2 {
-		o.Nontrivial()
-	}
-	// together
 	got := make([]string, len(c.Tasks))
-	panics := make([]error, len(c.Tasks))
-	var wg sync.WaitGroup
-	start := make(chan struct{})
-	for i := range c.Tasks {
-		wg.Add(1)
-		go func(i int) {
-			defer wg.Done()
-			<-start
-			panics[i] = vf.Safely(func() error { got[i], _ = c.Tasks[i].run(); return nil })
-		}(i)
-	}
-	close(start)
-	wg.Wait()
-	for i := range c.Tasks {
-		if panics[i] != nil {
-			return fmt.Errorf("task %d (%s) run concurrently: %v", i, c.Tasks[i].Kind, panics[i])
+	alone := func() error { // one after the other
+		withConflicts := 0
+		for i, t := range c.Tasks {
+			var nc int
+			want[i], nc = t.run()
+			if nc > 0 {
+				withConflicts++
+			}
 		}
+		if rep := raceReports(); rep != "" {
+			return raceError("while running the tasks one after the other", rep)
+		}
+		if withConflicts >= 2 {
+			o.Nontrivial()
+		}
+		return nil
+	}
+	together := func() error {
+		panics := make([]error, len(c.Tasks))
+		var wg sync.WaitGroup
+		start := make(chan struct{})
+		for i := range c.Tasks {
+			wg.Add(1)
+			go func(i int) {
+				defer wg.Done()
+				<-start
+				panics[i] = vf.Safely(func() error { got[i], _ = c.Tasks[i].run(); return nil })
+			}(i)
+		}
+		close(start)
+		wg.Wait()
+		for i := range c.Tasks {
+			if panics[i] != nil {
+				return fmt.Errorf("task %d (%s) run concurrently: %v", i, c.Tasks[i].Kind, panics[i])
+			}
+		}
+		if rep := raceReports(); rep != "" {
+			return raceError("while running the tasks concurrently", rep)
+		}
+		return nil
+	}
+	phases := []func() error{alone, together}
+	if c.ConcurrentFirst {
+		phases = []func() error{together, alone}
+	}
+	for _, ph := range phases {
+		if err := ph(); err != nil {
+			return err
+		}
+	}
+	for i := range c.Tasks {
 		if got[i] != want[i] {
 			return fmt.Errorf("task %d (%s) returns %q when run with %d other tasks, %q when run alone", i, c.Tasks[i].Kind, got[i], len(c.Tasks)-1, want[i])
 		}
-	}
-	if rep := raceReports(); rep != "" {
-		return raceError("while running the tasks concurrently", rep)
 	}
 	return nil
 }
@@ -321,7 +347,7 @@ func raceError(when, rep string) error {
 }
 
 func genTask(t *rapid.T) Task {
-	kind := rapid.SampledFrom([]string{"solve", "solve", "cert-solve", "count", "enumerate-chan", "cp-solve", "opb-optimal", "optimal-chan", "wcnf", "maxsat-api", "unsat-subset", "mus-deletion", "mus-insertion", "mus-maxsat", "bf-solve", "bf-dimacs"}).Draw(t, "kind")
+	kind := rapid.SampledFrom([]string{"solve", "solve", "cert-solve", "count", "enumerate-chan", "cp-solve", "cp-solve-heavy", "opb-optimal", "optimal-chan", "wcnf", "maxsat-api", "unsat-subset", "mus-deletion", "mus-insertion", "mus-maxsat", "bf-solve", "bf-dimacs"}).Draw(t, "kind")
 	tk := Task{Kind: kind}
 	switch kind {
 	case "solve", "cert-solve":
@@ -335,6 +361,10 @@ func genTask(t *rapid.T) Task {
 			tk.N = gen.Uniform(t, 6, 12, "n")
 			tk.Clauses, _ = gen.CliqueRich(t, tk.N)
 		}
+	case "cp-solve-heavy":
+		// cutting planes on the plain clauses of a pigeonhole formula: >= 512 conflicts, so the Luby restarts of that
+		// strategy (and reductions of its learned constraints) happen
+		tk.N, tk.Clauses = gen.Pigeonhole(t, rapid.IntRange(5, 6).Draw(t, "holes"), false)
 	case "opb-optimal":
 		var cost oracle.Cost
 		tk.N, tk.Clauses, cost = gen.VertexCover(t, 8, 14)
@@ -375,12 +405,16 @@ func genCase(t *rapid.T) Case {
 		c.Tasks = append(c.Tasks, genTask(t))
 	}
 	c.Procs = rapid.SampledFrom([]int{2, 4, 16}).Draw(t, "procs")
+	if rapid.Bool().Draw(t, "low") {
+		c.NbMax = rapid.IntRange(3, 40).Draw(t, "limit")
+	}
+	c.ConcurrentFirst = gen.Chance(t, 1, 3, "concurrentFirst")
 	return c
 }
 
 func init() {
 	vf.Register(vf.Sub[Case]{Name: "concurrent-mix", Quick: 600, Thorough: 4000, Gen: genCase, Check: check, Floor: 0.3, Journal: true,
-		Rule: "k in 2..8 data-independent tasks drawn from: Solve / certified Solve on parity and pigeonhole formulas (tens of conflicts), CountModels, Enumerate with a model channel, DetectAtMostOne + cutting-planes Solve, ParseOPB + Optimal, Optimal with result channel (the consumer keeps and re-reads the models) on weighted vertex cover, ParseWCNF+Optimal, maxsat.New+Solve, UnsatSubset, MUSDeletion, MUSInsertion, MUSMaxSat, bf.Solve, bf.Dimacs; GOMAXPROCS in {2,4,16}; every task's outcome (verdict, model validity, count, optimum, certificate validity, extracted subset) is first computed with the tasks run one after the other, then all tasks are started together and must return the same outcome; the binary is built with -race and the detector's report file is read after each phase: any report is a failure; non-trivial = >=2 tasks with >=1 conflict each. The schedule is not owned by the harness: each round is one sample of the interleavings"})
+		Rule: "k in 2..8 data-independent tasks drawn from: Solve / certified Solve on parity and pigeonhole formulas (tens of conflicts), CountModels, Enumerate with a model channel, DetectAtMostOne + cutting-planes Solve, ParseOPB + Optimal, Optimal with result channel (the consumer keeps and re-reads the models) on weighted vertex cover, ParseWCNF+Optimal, maxsat.New+Solve, UnsatSubset, MUSDeletion, MUSInsertion, MUSMaxSat, bf.Solve, bf.Dimacs; GOMAXPROCS in {2,4,16}; in half of the rounds the learned-clause limit of all solvers is lowered (3..40) so that clause-database reductions happen inside the runs; in a third of the rounds the concurrent phase comes first; every task's outcome (verdict, model validity, count, optimum, certificate validity, extracted subset) is first computed with the tasks run one after the other, then all tasks are started together and must return the same outcome; the binary is built with -race and the detector's report file is read after each phase: any report is a failure; non-trivial = >=2 tasks with >=1 conflict each. The schedule is not owned by the harness: each round is one sample of the interleavings"})
 }
 
 func TestMain(m *testing.M)   { vf.Main(m, "C16") }
